@@ -20,6 +20,7 @@ def actOf (j : Json) : Option Act :=
     match strAt a 0 with
     | "submit" => some (.submit (natAt a 1))
     | "begin" => some (.begin (natAt a 1))
+    | "taskEnd" => some (.taskEnd (natAt a 1) (finOf a))
     | "finish" => some (.finish (natAt a 1) (finOf a))
     | "timerFire" => some (.timerFire (natAt a 1))
     | "resubmit" => some (.resubmit (natAt a 1) (boolAt a 2))
